@@ -371,6 +371,12 @@ func (s *Store) mergeSegStacks(footer *Footer, splicePoint int,
 		incarNum: higher.incarNum,
 	}
 
+	// A child collection can have fewer persisted segments than the
+	// top-level collection, whose splice point is handed down.
+	if splicePoint > lenFooterSS {
+		splicePoint = lenFooterSS
+	}
+
 	if footerSS != nil {
 		rv.a = append(rv.a, footerSS.a[splicePoint:]...)
 
@@ -424,6 +430,10 @@ func (f *Footer) emptySegStack(options *CollectionOptions) *segmentStack {
 }
 
 func (right *Footer) spliceFooter(left *Footer, splicePoint int) {
+	if splicePoint > len(left.SegmentLocs) {
+		splicePoint = len(left.SegmentLocs) // See mergeSegStacks().
+	}
+
 	slocs := make([]SegmentLoc, splicePoint, splicePoint+len(right.SegmentLocs))
 	copy(slocs, left.SegmentLocs[0:splicePoint])
 	slocs = append(slocs, right.SegmentLocs...)
